@@ -39,6 +39,14 @@
 //! registers, stand-alone files and grids in both search locations. A look-up finds what the file
 //! system holds at the time of the look-up (grids: cached by name once loaded, as documented).
 //!
+//! The SIZE of a register / resource file and the POSITION of the item in it (sections
+//! file-size-and-item-position, -random, registers-with-very-many-items; chapter 7e): files padded with
+//! filler (prose, other fenced items, very long lines, blank lines, code blocks, multi-byte text, comments
+//! inside the definition; LF and CR/LF) so that a chosen byte of the wanted item - or the item as a whole,
+//! before / after - falls on byte 2^k - 1, 2^k, 2^k + 1 (k = 9..=22, thorough ..=26) or on a random offset
+//! of the file; registers with up to 10^5 (10^6) items. What is instantiated must be exactly the body
+//! written into the file (behaviour, steps, parameters), an item that is not there is an error.
+//!
 //! Arithmetic of built-in primitives is taken from a pristine thread-local reference
 //! context (GridCtx, in-memory grids, never mutated after set-up); the model decides WHICH
 //! primitive with WHICH constant in WHICH order/direction; user operators are computed
@@ -3709,6 +3717,777 @@ fn helm_k(k: i64) -> Step {
 }
 
 // =====================================================================================
+// 7e. The SIZE of a register / resource file and the POSITION of the item in it
+// =====================================================================================
+//
+// "Plain finds file based macros in resource files and registers exactly as documented" holds for a
+// register of any size and for an item anywhere in it: the documentation (Rumination 009, doc comments
+// of Plain) knows no limit on the size of a register, on the number of its items, on the length of a
+// line, or on the amount of prose / other fenced blocks / comments around and inside an item.
+//
+// Generator dimension: the file is padded with filler so that a chosen byte of the wanted item (its
+// first byte, a byte of its tag, of a number in its body, of a step separator, of its closing fence, the
+// byte after it ...) is byte number `mark` of the file, for mark = 2^k, 2^k - 1, 2^k + 1 and for random
+// marks; or the whole item lies before / after the mark. Filler: prose, other fenced geodesy items,
+// one very long line, blank lines, code blocks and multi-byte prose, items with long comment lines;
+// inside a definition: comment lines, one long comment line, blank lines, a long run of blanks,
+// multi-byte comments, a long inline comment. LF and CR/LF. Plus registers with very many items.
+//
+// Oracle: what op(name) instantiates is exactly the body written into the file: behaviour (bitwise,
+// both directions, reference context) of the literal body, and steps() / params() equal to those of a
+// Minimal context in which the literal body has been registered at run time under the same name. An
+// item that is not in the file is an error. A run-time registration takes precedence.
+//
+// The sections of this chapter run in a directory tree of their own (memory file system if there is
+// one), entered before and left after them on the main thread; their cases run in parallel, every case
+// with a file name of its own, removed as soon as the case is done.
+
+static BIG_BASE: OnceLock<PathBuf> = OnceLock::new();
+static BIG_COUNTER: AtomicU64 = AtomicU64::new(0);
+static BIG_GATE: (std::sync::Mutex<usize>, std::sync::Condvar) = (std::sync::Mutex::new(0), std::sync::Condvar::new());
+/// files larger than this are handled by at most `BIG_GATE_SLOTS` threads at a time (memory)
+const BIG_GATE_BYTES: usize = 6 << 20;
+const BIG_GATE_SLOTS: usize = 3;
+
+struct GateGuard;
+fn big_gate() -> GateGuard {
+    let (m, cv) = &BIG_GATE;
+    let mut n = m.lock().unwrap_or_else(|e| e.into_inner());
+    while *n >= BIG_GATE_SLOTS {
+        n = cv.wait(n).unwrap_or_else(|e| e.into_inner());
+    }
+    *n += 1;
+    GateGuard
+}
+impl Drop for GateGuard {
+    fn drop(&mut self) {
+        let (m, cv) = &BIG_GATE;
+        *m.lock().unwrap_or_else(|e| e.into_inner()) -= 1;
+        cv.notify_one();
+    }
+}
+
+fn enter_big_tree() {
+    let base = late_root().join("big");
+    let _ = std::fs::remove_dir_all(&base);
+    for loc in ["w", "u"] {
+        std::fs::create_dir_all(base.join(loc).join("geodesy").join("resources")).expect("size/position tree");
+    }
+    std::env::set_var("XDG_DATA_HOME", base.join("u"));
+    std::env::set_current_dir(base.join("w")).expect("chdir into the size/position tree");
+    let _ = BIG_BASE.set(base);
+}
+fn leave_big_tree() {
+    std::env::set_var("XDG_DATA_HOME", world().root.join("u"));
+    let _ = std::env::set_current_dir(world().root.join("w"));
+    if let Some(b) = BIG_BASE.get() {
+        let _ = std::fs::remove_dir_all(b);
+    }
+}
+fn big_dir(xdg: bool) -> PathBuf {
+    BIG_BASE.get().expect("size/position tree entered").join(if xdg { "u" } else { "w" }).join("geodesy").join("resources")
+}
+
+struct TmpFile(PathBuf);
+impl Drop for TmpFile {
+    fn drop(&mut self) {
+        let _ = std::fs::remove_file(&self.0);
+    }
+}
+
+/// an item as the model sees it: steps (primitive, inverted), pipeline?, the literal body (LF, trimmed)
+#[derive(Clone, Debug)]
+struct ItemModel {
+    suffix: String,
+    role: &'static str,
+    steps: Vec<(Prim, bool)>,
+    body: String,
+    /// byte range of the item (tag .. end of terminator / body) in the file
+    range: (usize, usize),
+}
+impl ItemModel {
+    fn node(&self) -> Node {
+        let leaf = |(p, i): &(Prim, bool)| Node::Leaf { prim: p.clone(), inverted: *i };
+        if self.steps.len() == 1 && !self.body.contains('|') {
+            leaf(&self.steps[0])
+        } else {
+            Node::Seq { items: self.steps.iter().map(leaf).collect(), inverted: false }
+        }
+    }
+}
+
+struct BuiltFile {
+    file_name: String,
+    text: String,
+    items: Vec<ItemModel>,
+    absent: Vec<String>,
+    /// what the case is about, for messages
+    what: String,
+}
+
+const REG_FILLERS: [&str; 6] = ["prose", "other-fenced-geodesy-items", "one-very-long-line", "blank-lines", "code-blocks+multi-byte-prose", "items-with-long-comment-lines"];
+const DEF_FILLERS: [&str; 6] = ["comment-lines", "one-very-long-comment-line", "blank-lines", "one-long-line-of-blanks-and-tabs", "multi-byte-comment-lines", "one-very-long-inline-comment"];
+
+/// Filler BETWEEN the items of a register: exactly `n` bytes, ending with a line end. Never contains
+/// the tag of an item called `want`, `first`, `last`; `names` receives the fenced geodesy items it holds
+fn reg_filler(style: u8, n: usize, nl: &str, counter: &mut u32, names: &mut Vec<(String, i64, String, usize)>, at: usize) -> String {
+    let l = nl.len();
+    assert!(n >= l + 2, "filler of {n} bytes");
+    let mut t = String::with_capacity(n);
+    let budget = n - l;
+    let style = style % 6;
+    let mut pad = 'x';
+    let mut u = 0usize;
+    loop {
+        let unit: String = match style {
+            0 => match u % 9 {
+                0 => format!("## Section {u}{nl}{nl}"),
+                8 => nl.to_string(),
+                _ => format!("Lorem ipsum dolor sit amet, consectetur adipiscing elit, item {u}.{nl}"),
+            },
+            1 => {
+                names.push((format!("f{}", *counter), *counter as i64, format!("helmert x={}", *counter), at + t.len()));
+                format!("```geodesy:f{c}{nl}helmert x={c}{nl}```{nl}{nl}", c = *counter)
+            }
+            2 => "lorem ipsum ".to_string(),
+            3 => {
+                pad = ' ';
+                nl.to_string()
+            }
+            4 => match u % 4 {
+                0 => format!("Størrelsen på Ærø — ca. 88 km², se også geodesy:want og `geodesy:last`.{nl}{nl}"),
+                1 => format!("```rust{nl}let geodesy = \"want\"; // not an item{nl}```{nl}{nl}"),
+                2 => format!("```txt{nl}geodesy:want{nl}geodesy:first{nl}```{nl}{nl}"),
+                _ => format!("> ελλειψοειδές: GRS80 ≠ «intl»{nl}{nl}"),
+            },
+            _ => {
+                let comment = "long comment ".repeat(64 + (u % 3) * 40);
+                names.push((format!("c{}", *counter), *counter as i64, format!("# {comment}\nhelmert x={}", *counter), at + t.len()));
+                format!("```geodesy:c{c}{nl}# {comment}{nl}helmert x={c}{nl}```{nl}{nl}", c = *counter)
+            }
+        };
+        if t.len() + unit.len() > budget {
+            if style == 1 || style == 5 {
+                names.pop();
+            }
+            break;
+        }
+        if style == 1 || style == 5 {
+            *counter += 1;
+        }
+        t.push_str(&unit);
+        u += 1;
+    }
+    while t.len() < budget {
+        t.push(pad);
+    }
+    t.push_str(nl);
+    assert_eq!(t.len(), n);
+    t
+}
+
+/// Filler INSIDE a definition (comments, blank lines): exactly `n` bytes, ending with a line end.
+/// Style 5 (inline comment) continues the line of the step in front of it.
+fn def_filler(style: u8, n: usize, nl: &str) -> String {
+    let l = nl.len();
+    assert!(n >= l + 3, "filler of {n} bytes");
+    let mut t = String::with_capacity(n);
+    let budget = n - l;
+    match style % 6 {
+        0 | 4 => {
+            let unit = if style % 6 == 0 { format!("# lorem ipsum dolor sit amet consectetur adipiscing elit{nl}") } else { format!("# Størrelsen på Ærø — ca. 88 km² (ελλειψοειδές){nl}") };
+            // the last line is a comment of its own: keep room for its '#'
+            while t.len() + unit.len() + 1 <= budget {
+                t.push_str(&unit);
+            }
+            t.push('#');
+            while t.len() < budget {
+                t.push('x');
+            }
+        }
+        1 => {
+            t.push_str("# ");
+            while t.len() < budget {
+                t.push(if t.len() % 7 == 0 { ' ' } else { 'c' });
+            }
+        }
+        2 => {
+            while t.len() + l <= budget {
+                t.push_str(nl);
+            }
+            while t.len() < budget {
+                t.push(' ');
+            }
+        }
+        3 => {
+            while t.len() < budget {
+                t.push(if t.len() % 8 == 5 { '\t' } else { ' ' });
+            }
+        }
+        _ => {
+            t.push_str(" # ");
+            while t.len() < budget {
+                t.push(if t.len() % 9 == 0 { ' ' } else { 'i' });
+            }
+        }
+    }
+    t.push_str(nl);
+    assert_eq!(t.len(), n);
+    t
+}
+
+#[derive(Clone, Debug, Serialize, Deserialize)]
+struct SizeCase {
+    /// 0: register, filler BETWEEN the items; 1: register, filler INSIDE the body of the wanted item;
+    /// 2: stand-alone `.resource` file, filler inside the definition
+    shape: u8,
+    /// in the user data directory instead of ./geodesy
+    xdg: bool,
+    /// the byte offset (in the file) of the anchor byte
+    mark: u64,
+    /// which byte of the wanted item is the anchor: see ALIGN0 (shape 0) / ALIGN1 (shapes 1, 2)
+    align: u8,
+    filler: u8,
+    crlf: bool,
+    /// shape 0: 0 end of file after the item; 1 item unterminated at end of file; 2 filler (mark/2 bytes) and a
+    /// terminated last item without final newline; 3 prose and an unterminated last item.
+    /// shapes 1, 2: bit 0 filler between step 2 and step 3 too; bit 1 no final newline / item unterminated
+    tail: u8,
+    /// which body (0..4), bit 2: no final newline after an unterminated item
+    body: u8,
+}
+
+const ALIGN0: [&str; 14] = [
+    "item-wholly-before-mark",
+    "item-ends-at-mark",
+    "mark-at-line-end-of-closing-fence",
+    "mark-inside-closing-fence",
+    "mark-at-line-end-of-body",
+    "mark-at-last-digit-of-last-number",
+    "mark-at-last-step-separator",
+    "mark-inside-first-number",
+    "mark-at-first-byte-of-body",
+    "mark-at-line-end-of-tag",
+    "mark-inside-item-name-of-tag",
+    "mark-inside-opening-fence",
+    "item-starts-at-mark",
+    "item-wholly-after-mark",
+];
+const ALIGN1: [&str; 8] = [
+    "step-wholly-before-mark",
+    "step-ends-at-mark",
+    "mark-at-last-digit-of-step",
+    "mark-inside-operator-name",
+    "mark-after-step-separator",
+    "step-starts-at-mark",
+    "step-wholly-after-mark",
+    "next-step-starts-at-mark",
+];
+
+fn mark_label(mark: u64) -> String {
+    for d in [0i64, -1, 1] {
+        let m = mark as i64 - d;
+        if m > 0 && (m as u64).is_power_of_two() {
+            return format!("2^{}{}", (m as u64).trailing_zeros(), ["", "+1", "-1"][if d == 0 { 0 } else if d == 1 { 1 } else { 2 }]);
+        }
+    }
+    format!("between-2^{}-and-2^{}", 63 - mark.leading_zeros(), 64 - mark.leading_zeros())
+}
+
+fn size_bodies(b: u8, nl: &str) -> (String, Vec<(Prim, bool)>) {
+    match b % 4 {
+        0 => ("helmert x=4321 | addone | helmert x=8765".to_string(), vec![(Prim::Helm(4321), false), (Prim::Add1, false), (Prim::Helm(8765), false)]),
+        1 => (format!("helmert x=4321{nl}| addone inv{nl}| helmert x=8765"), vec![(Prim::Helm(4321), false), (Prim::Add1, true), (Prim::Helm(8765), false)]),
+        2 => ("addone | addone | addone".to_string(), vec![(Prim::Add1, false), (Prim::Add1, false), (Prim::Add1, false)]),
+        _ => ("helmert x=97531".to_string(), vec![(Prim::Helm(97531), false)]),
+    }
+}
+
+fn lf(s: &str) -> String {
+    s.replace("\r\n", "\n").trim().to_string()
+}
+
+/// Shape 0: a register; the filler is between the items
+fn build_register_between(c: &SizeCase, prefix: &str) -> Option<BuiltFile> {
+    let nl = if c.crlf { "\r\n" } else { "\n" };
+    let mark = c.mark as usize;
+    let gap = (mark / 8).max(24);
+    let align = c.align as usize % ALIGN0.len();
+    let tail = c.tail % 4;
+    let unterminated = tail == 1;
+    let (body, steps) = size_bodies(c.body, nl);
+    let tag = format!("```geodesy:want{nl}");
+    let mut w = format!("{tag}{body}");
+    let body_end = w.len();
+    if !unterminated {
+        w.push_str(nl);
+        w.push_str("```");
+        w.push_str(nl);
+    } else if c.body & 4 == 0 {
+        w.push_str(nl);
+    }
+    let in_body = |p: Option<usize>, fallback: usize| tag.len() + p.unwrap_or(fallback);
+    let a: isize = match align {
+        0 => (w.len() + gap) as isize,
+        1 => w.len() as isize,
+        2 => (w.len() - if unterminated { 0 } else { nl.len() }) as isize,
+        3 => (body_end + nl.len() + 1).min(w.len()) as isize,
+        4 => body_end as isize,
+        5 => in_body(body.rfind(|ch: char| ch.is_ascii_digit()), body.len() - 2) as isize,
+        6 => in_body(body.rfind('|'), body.len() / 2) as isize,
+        7 => in_body(body.find(|ch: char| ch.is_ascii_digit()).map(|p| p + 2), 3) as isize,
+        8 => tag.len() as isize,
+        9 => (tag.len() - nl.len()) as isize,
+        10 => 13,
+        11 => 1,
+        12 => 0,
+        _ => -(gap as isize),
+    };
+    let head = format!(
+        "# Register {prefix}{nl}{nl}Prose mentioning geodesy:want and `code`.{nl}{nl}```geodesy:first{nl}helmert x=11{nl}```{nl}{nl}```geodesy:wantx{nl}helmert x=12{nl}```{nl}{nl}```geodesy:xwant{nl}helmert x=13 | addone{nl}```{nl}{nl}"
+    );
+    let n1 = mark as isize - a - head.len() as isize;
+    if n1 < 8 {
+        return None;
+    }
+    let mut items = vec![];
+    let mut counter = 100u32;
+    let mut fenced: Vec<(String, i64, String, usize)> = vec![];
+    let single = |sfx: &str, v: i64, role: &'static str, range: (usize, usize)| ItemModel { suffix: sfx.to_string(), role, steps: vec![(Prim::Helm(v), false)], body: format!("helmert x={v}"), range };
+    items.push(single("first", 11, "first-item-of-the-file", (0, head.len())));
+    let mut text = String::with_capacity(mark + mark / 2 + 4 * gap + 1024);
+    text.push_str(&head);
+    text.push_str(&reg_filler(c.filler, n1 as usize, nl, &mut counter, &mut fenced, head.len()));
+    let w_start = text.len();
+    assert_eq!(w_start as isize + a, mark as isize);
+    text.push_str(&w);
+    items.insert(0, ItemModel { suffix: "want".into(), role: "positioned-item", steps, body: lf(&body), range: (w_start, w_start + w.len()) });
+    // the filler item right in front of the wanted one (it ends before the mark in all but the `after` alignment)
+    if let Some((sfx, v, body, at)) = fenced.last().cloned() {
+        items.push(ItemModel { suffix: sfx, role: "filler-item-in-front-of-the-positioned-one", steps: vec![(Prim::Helm(v), false)], body, range: (at, w_start) });
+    }
+    if !unterminated {
+        let f2 = match tail {
+            2 => (mark / 2).max(2 * gap),
+            _ if align == 0 => 2 * gap,
+            _ => 0,
+        };
+        if tail >= 2 || f2 > 0 {
+            text.push_str(nl);
+        }
+        if f2 > 0 {
+            let at = text.len();
+            text.push_str(&reg_filler(c.filler.wrapping_add(1 + c.align), f2, nl, &mut counter, &mut fenced, at));
+        }
+        if tail == 2 {
+            let at = text.len();
+            text.push_str(&format!("## The last one{nl}{nl}```geodesy:last{nl}helmert x=99{nl}```"));
+            items.push(single("last", 99, "last-item-fence-is-end-of-file", (at, text.len())));
+        } else if tail == 3 {
+            let at = text.len();
+            text.push_str(&format!("Short prose.{nl}{nl}```geodesy:last{nl}helmert x=98 | addone{nl}"));
+            items.push(ItemModel { suffix: "last".into(), role: "last-item-unterminated", steps: vec![(Prim::Helm(98), false), (Prim::Add1, false)], body: "helmert x=98 | addone".into(), range: (at, text.len()) });
+        }
+    }
+    let mut absent = vec!["nosuch".to_string()];
+    if text.len() < (64 << 10) {
+        items.push(single("wantx", 12, "item-whose-name-extends-the-wanted-one", (0, head.len())));
+        items.push(ItemModel { suffix: "xwant".into(), role: "item-whose-name-ends-with-the-wanted-one", steps: vec![(Prim::Helm(13), false), (Prim::Add1, false)], body: "helmert x=13 | addone".into(), range: (0, head.len()) });
+        absent.push("wan".into());
+        absent.push("ant".into());
+        if !items.iter().any(|i| i.suffix == "last") {
+            absent.push("last".into());
+        }
+    }
+    let what = format!(
+        "register {prefix}.md of {} bytes ({}, filler: {}), item `want` (body {:?}{}) at bytes {}..{}, placed so that byte {} of the file ({}) is: {}",
+        text.len(), if c.crlf { "CR/LF" } else { "LF" }, REG_FILLERS[c.filler as usize % 6], lf(&body), if unterminated { ", unterminated, at end of file" } else { "" },
+        w_start, w_start + w.len(), mark, mark_label(c.mark), ALIGN0[align]
+    );
+    Some(BuiltFile { file_name: format!("{prefix}.md"), text, items, absent, what })
+}
+
+/// Shapes 1 and 2: the filler is INSIDE the definition (between its steps): a stand-alone resource
+/// file, or a register item with a very large body
+fn build_filler_inside(c: &SizeCase, prefix: &str) -> Option<BuiltFile> {
+    let nl = if c.crlf { "\r\n" } else { "\n" };
+    let mark = c.mark as usize;
+    let gap = (mark / 8).max(24);
+    let align = c.align as usize % ALIGN1.len();
+    let register = c.shape % 3 == 1;
+    let style = c.filler % 6;
+    let (s1, t2, t3, steps): (&str, &str, &str, Vec<(Prim, bool)>) = match c.body % 3 {
+        0 => ("helmert x=13579", "| helmert x=24680", "| addone", vec![(Prim::Helm(13579), false), (Prim::Helm(24680), false), (Prim::Add1, false)]),
+        1 => ("addone", "| addone", "| addone", vec![(Prim::Add1, false), (Prim::Add1, false), (Prim::Add1, false)]),
+        _ => ("addone inv", "| helmert x=86420", "| helmert x=777 inv", vec![(Prim::Add1, true), (Prim::Helm(86420), false), (Prim::Helm(777), true)]),
+    };
+    let pre = if register {
+        format!("# Register {prefix}{nl}{nl}```geodesy:first{nl}helmert x=11{nl}```{nl}{nl}An item with a very large body:{nl}{nl}```geodesy:want{nl}")
+    } else {
+        String::new()
+    };
+    let sep1 = if style == 5 { "" } else { nl };
+    let a: isize = match align {
+        0 => (t2.len() + gap) as isize,
+        1 => t2.len() as isize,
+        2 => t2.rfind(|ch: char| ch.is_ascii_digit()).unwrap_or(t2.len() - 2) as isize,
+        3 => 5,
+        4 => 1,
+        5 => 0,
+        6 => -(gap as isize),
+        _ => (t2.len() + nl.len()) as isize,
+    };
+    let n1 = mark as isize - a - (pre.len() + s1.len() + sep1.len()) as isize;
+    if n1 < 8 {
+        return None;
+    }
+    let n2 = if align == 7 {
+        0
+    } else if align == 0 {
+        2 * gap
+    } else if c.tail & 1 == 1 {
+        (mark / 2).max(16)
+    } else {
+        0
+    };
+    let mut text = String::with_capacity(mark + n2 + 1024);
+    text.push_str(&pre);
+    let d_start = text.len();
+    text.push_str(s1);
+    text.push_str(sep1);
+    text.push_str(&def_filler(style, n1 as usize, nl));
+    let t2_start = text.len();
+    assert_eq!(t2_start as isize + a, mark as isize);
+    text.push_str(t2);
+    if n2 > 0 {
+        let st2 = (style + 1 + c.align) % 6;
+        text.push_str(if st2 == 5 { "" } else { nl });
+        text.push_str(&def_filler(st2, n2, nl));
+    } else {
+        text.push_str(nl);
+    }
+    text.push_str(t3);
+    let mut items = vec![];
+    let body = format!("{s1} {t2} {t3}");
+    if register {
+        let open = c.tail & 2 != 0;
+        if open {
+            if c.body & 4 == 0 {
+                text.push_str(nl);
+            }
+        } else {
+            text.push_str(&format!("{nl}```{nl}"));
+        }
+        let end = text.len();
+        items.push(ItemModel { suffix: "want".into(), role: "positioned-item", steps, body, range: (d_start, end) });
+        items.push(ItemModel { suffix: "first".into(), role: "first-item-of-the-file", steps: vec![(Prim::Helm(11), false)], body: "helmert x=11".into(), range: (0, d_start) });
+        if !open {
+            let at = text.len();
+            text.push_str(&format!("{nl}Short prose.{nl}{nl}```geodesy:last{nl}helmert x=99{nl}```{nl}"));
+            items.push(ItemModel { suffix: "last".into(), role: "last-item-of-the-file", steps: vec![(Prim::Helm(99), false)], body: "helmert x=99".into(), range: (at, text.len()) });
+        }
+    } else {
+        if c.tail & 2 == 0 {
+            text.push_str(nl);
+        }
+        items.push(ItemModel { suffix: "want".into(), role: "positioned-item", steps, body, range: (0, text.len()) });
+    }
+    let what = format!(
+        "{} of {} bytes ({}, filler inside the definition: {}), definition `{}` with step 2 at bytes {}..{}, placed so that byte {} of the file ({}) is: {}",
+        if register { format!("register {prefix}.md with one very large item `want` (bytes {d_start}..)") } else { format!("stand-alone file {prefix}_want.resource") },
+        text.len(), if c.crlf { "CR/LF" } else { "LF" }, DEF_FILLERS[style as usize], items[0].body, t2_start, t2_start + t2.len(), mark, mark_label(c.mark), ALIGN1[align]
+    );
+    let file_name = if register { format!("{prefix}.md") } else { format!("{prefix}_want.resource") };
+    Some(BuiltFile { file_name, text, items, absent: vec!["nosuch".to_string()], what })
+}
+
+fn excerpt(s: &str) -> String {
+    if s.len() <= 160 {
+        return format!("{s:?}");
+    }
+    let head: String = s.chars().take(70).collect();
+    let tail: String = s.chars().rev().take(70).collect::<Vec<_>>().into_iter().rev().collect();
+    format!("{head:?} ... ({} bytes) ... {tail:?}", s.len())
+}
+
+/// The oracle of this chapter: every item of `b` is found and is exactly what was written; absent ones are errors
+fn check_built_file(b: &BuiltFile, prefix: &str, xdg: bool, shape_label: &str, mark: Option<usize>, rec: &mut Rec) -> CaseResult {
+    let _gate = if b.text.len() > BIG_GATE_BYTES { Some(big_gate()) } else { None };
+    let path = big_dir(xdg).join(&b.file_name);
+    std::fs::write(&path, b.text.as_bytes()).unwrap_or_else(|e| panic!("size/position tree: cannot write {path:?}: {e}"));
+    let _file = TmpFile(path);
+    rec.count("bytes_written", b.text.len() as u64);
+    rec.metric("largest_file_bytes", b.text.len() as f64);
+    let pr = probes();
+    let pr = &pr[..3];
+    let mut ctx = AnyCtx::make(true, true);
+    let place = if xdg { "$XDG_DATA_HOME/geodesy/resources" } else { "./geodesy/resources" };
+    for item in &b.items {
+        let name = format!("{prefix}:{}", item.suffix);
+        let relation = match mark {
+            Some(m) if item.range.1 <= m => "item-before-mark",
+            Some(m) if item.range.0 >= m => "item-at-or-after-mark",
+            Some(_) => "item-straddling-mark",
+            None => "item-of-many",
+        };
+        let r = guard(|| ctx.op(&name)).map_err(|p| Failure { key: format!("panic-op@{}", p.sig()), msg: format!("op({name:?}) panics: {} at {}:{}; {}", p.msg, p.file, p.line, b.what) })?;
+        let got = || match &ctx {
+            AnyCtx::Pla(p) => p.get_resource(&name).map(|t| excerpt(&t)).unwrap_or_else(|e| format!("{e:?}")),
+            _ => String::new(),
+        };
+        let h = match r {
+            Ok(h) => h,
+            Err(e) => vfail!(
+                format!("file-item-not-found/{shape_label}/{relation}"),
+                "Plain: op({name:?}) fails with {e:?} although the item ({}, bytes {}..{} of the file, body {:?}) IS in {place}/{}; {}",
+                item.role, item.range.0, item.range.1, item.body, b.file_name, b.what
+            ),
+        };
+        let node = item.node();
+        let lib = singletons(&ctx, h, true, pr)?;
+        let libi = singletons(&ctx, h, false, pr)?;
+        let (mf, _) = model_singletons(&node, true, pr);
+        let (mi, _) = model_singletons(&node, false, pr);
+        if lib != mf || libi != mi {
+            vfail!(
+                format!("file-item-mismatch/{shape_label}/{relation}"),
+                "Plain: op({name:?}) gives Fwd {} / Inv {}, but the item written into {place}/{} ({}, bytes {}..{}) is {:?} = {} -> Fwd {} / Inv {}; get_resource returns {}; {}",
+                show_outs(&lib), show_outs(&libi), b.file_name, item.role, item.range.0, item.range.1, item.body, node.describe(), show_outs(&mf), show_outs(&mi), got(), b.what
+            );
+        }
+        // steps and parameters: those of the literal body, registered at run time under the same name
+        let mut lit = AnyCtx::make(false, true);
+        lit.register_resource(&name, &item.body);
+        let hl = lit.op(&name).unwrap_or_else(|e| panic!("the literal body {:?} does not instantiate on Minimal: {e:?}", item.body));
+        // (the error texts for a step index out of range name the context type: not compared)
+        let blank = |v: (Result<Vec<String>, String>, Vec<Result<u64, String>>)| (v.0, v.1.into_iter().map(|r| r.map_err(|_| String::new())).collect::<Vec<_>>());
+        let (ls, lp) = blank(static_part(&lit, hl)?);
+        let (fs, fp) = blank(static_part(&ctx, h)?);
+        if ls != fs || lp != fp {
+            vfail!(
+                format!("file-item-steps-mismatch/{shape_label}/{relation}"),
+                "Plain: op({name:?}) behaves as the item written into {place}/{} ({}, {:?}) but reports steps {:?} (parameter digests {:?}); the literal body registered at run time reports {:?} ({:?}); get_resource returns {}; {}",
+                b.file_name, item.role, item.body, fs, fp, ls, lp, got(), b.what
+            );
+        }
+        rec.class(&format!("found:{}/{relation}", item.role));
+        rec.count("items_found_and_compared", 1);
+    }
+    for sfx in &b.absent {
+        let name = format!("{prefix}:{sfx}");
+        let r = guard(|| ctx.op(&name)).map_err(|p| Failure { key: format!("panic-op@{}", p.sig()), msg: format!("op({name:?}) panics: {} at {}:{}; {}", p.msg, p.file, p.line, b.what) })?;
+        if let Ok(h) = r {
+            let lib = singletons(&ctx, h, true, &pr[..1])?;
+            vfail!(
+                format!("absent-file-item-found/{shape_label}"),
+                "Plain: op({name:?}) succeeds (Fwd {}; steps {:?}) although {place}/{} holds no item of that name; {}",
+                show_outs(&lib), ctx.steps(h), b.file_name, b.what
+            );
+        }
+        rec.count("absent_items_refused", 1);
+    }
+    // a run-time registration takes precedence over the file, for later instantiations
+    let name = format!("{prefix}:{}", b.items[0].suffix);
+    ctx.register_resource(&name, "helmert x=31");
+    let h = match guard(|| ctx.op(&name)) {
+        Ok(Ok(h)) => h,
+        other => vfail!("runtime-registration-not-preferred-to-file", "Plain: register_resource({name:?}, \"helmert x=31\"); op({name:?}) gives {:?}; {}", other.map(|r| r.map(|_| ())).map_err(|p| p.msg), b.what),
+    };
+    let node = Node::Leaf { prim: Prim::Helm(31), inverted: false };
+    let lib = singletons(&ctx, h, true, pr)?;
+    let (m, _) = model_singletons(&node, true, pr);
+    if lib != m {
+        vfail!("runtime-registration-not-preferred-to-file", "Plain: register_resource({name:?}, \"helmert x=31\"); op({name:?}) gives {} instead of {}; {}", show_outs(&lib), show_outs(&m), b.what);
+    }
+    Ok(())
+}
+
+const SHAPES: [&str; 3] = ["register", "register-item-with-large-body", "stand-alone-file"];
+
+fn check_size_case(c: &SizeCase, rec: &mut Rec) -> CaseResult {
+    let prefix = format!("z{}", BIG_COUNTER.fetch_add(1, Ordering::Relaxed));
+    let shape = c.shape as usize % 3;
+    let built = if shape == 0 { build_register_between(c, &prefix) } else { build_filler_inside(c, &prefix) };
+    let Some(b) = built else {
+        rec.count("skipped_mark_too_small_for_this_layout", 1);
+        return Ok(());
+    };
+    let (align, filler) = if shape == 0 { (ALIGN0[c.align as usize % ALIGN0.len()], REG_FILLERS[c.filler as usize % 6]) } else { (ALIGN1[c.align as usize % ALIGN1.len()], DEF_FILLERS[c.filler as usize % 6]) };
+    rec.class(&format!("shape:{}/{}", SHAPES[shape], if c.xdg { "user-dir" } else { "cwd" }));
+    rec.class(&format!("mark:{}", mark_label(c.mark)));
+    rec.class(&format!("align:{}/{align}", SHAPES[shape]));
+    rec.class(&format!("filler:{}/{filler}", SHAPES[shape]));
+    rec.class(if c.crlf { "eol:CR/LF" } else { "eol:LF" });
+    rec.class(&format!("tail:{}/{}", SHAPES[shape], c.tail % 4));
+    rec.class(&format!("file-size:<2^{}", usize::BITS - b.text.len().leading_zeros()));
+    check_built_file(&b, &prefix, c.xdg, SHAPES[shape], Some(c.mark as usize), rec)?;
+    if b.text.len() > c.mark as usize {
+        rec.nontrivial(&(c.shape % 3, c.mark, c.align, c.filler % 6, c.crlf, c.tail % 4));
+    }
+    Ok(())
+}
+
+/// The enumerated marks 2^k - 1, 2^k, 2^k + 1: small files fully crossed, large files with the other
+/// dimensions rotating (few large files)
+fn size_cases(thorough: bool) -> Vec<SizeCase> {
+    let mut out = vec![];
+    let kmax: u32 = if thorough { 26 } else { 22 };
+    let full_to: u32 = if thorough { 14 } else { 12 }; // everything crossed
+    let mid_to: u32 = if thorough { 20 } else { 18 }; // filler crossed, the rest rotating
+    let mut rot = 0u32;
+    for shape in 0..3u8 {
+        let na = if shape == 0 { ALIGN0.len() } else { ALIGN1.len() } as u8;
+        for k in 9..=kmax {
+            for delta in [-1i64, 0, 1] {
+                let mark = ((1i64 << k) + delta) as u64;
+                for align in 0..na {
+                    // the largest files: the decisive alignments only
+                    if k > 22 && shape == 0 && ![0u8, 1, 5, 6, 10, 12, 13].contains(&align) {
+                        continue;
+                    }
+                    if k > 22 && shape != 0 && ![0u8, 1, 2, 5, 6].contains(&align) {
+                        continue;
+                    }
+                    if k > 24 && delta != 0 && shape != 0 {
+                        continue;
+                    }
+                    if k <= full_to {
+                        for filler in 0..6u8 {
+                            for crlf in [false, true] {
+                                for tail in 0..4u8 {
+                                    rot += 1;
+                                    out.push(SizeCase { shape, xdg: rot % 2 == 1, mark, align, filler, crlf, tail, body: (rot % 8) as u8 });
+                                }
+                            }
+                        }
+                    } else if k <= mid_to {
+                        for filler in 0..6u8 {
+                            rot += 1;
+                            out.push(SizeCase { shape, xdg: rot % 2 == 1, mark, align, filler, crlf: (rot / 2) % 2 == 1, tail: ((rot / 4) % 4) as u8, body: (rot % 8) as u8 });
+                        }
+                    } else {
+                        rot += 1;
+                        out.push(SizeCase { shape, xdg: rot % 2 == 1, mark, align, filler: (rot % 6) as u8, crlf: (rot / 2) % 2 == 1, tail: ((rot / 4) % 4) as u8, body: (rot % 8) as u8 });
+                    }
+                }
+            }
+        }
+    }
+    out
+}
+
+/// Random marks: m * 2^j / 8 + d for m in 8..16 (so also odd multiples of smaller powers of two), or anything
+fn arb_size_case(jmax: u32) -> impl Strategy<Value = SizeCase> {
+    let mark = prop_oneof![
+        3 => (9u32..=jmax, 8u64..16, -2i64..=2).prop_map(|(j, m, d)| (((m << j) >> 3) as i64 + d) as u64),
+        1 => (9u32..=jmax, 0u64..(1 << 20)).prop_map(|(j, r)| (1u64 << j) + r % (1u64 << j)),
+    ];
+    (0u8..3, any::<bool>(), mark, 0u8..14, 0u8..6, any::<bool>(), 0u8..4, 0u8..8).prop_map(|(shape, xdg, mark, align, filler, crlf, tail, body)| SizeCase { shape, xdg, mark, align, filler, crlf, tail, body })
+}
+
+// ---- registers with very many items --------------------------------------------------
+
+#[derive(Clone, Debug, Serialize, Deserialize)]
+struct ManyCase {
+    n: u32,
+    crlf: bool,
+    /// 0: items back to back; 1: a blank line between them; 2: a heading and prose between them
+    spacing: u8,
+    ending: u8,
+    xdg: bool,
+}
+
+fn check_many(c: &ManyCase, rec: &mut Rec) -> CaseResult {
+    let prefix = format!("z{}", BIG_COUNTER.fetch_add(1, Ordering::Relaxed));
+    let nl = if c.crlf { "\r\n" } else { "\n" };
+    let n = c.n.max(2) as usize;
+    let body_of = |j: usize| if j % 5 == 0 { (format!("helmert x={j} | addone"), vec![(Prim::Helm(j as i64), false), (Prim::Add1, false)]) } else { (format!("helmert x={j}"), vec![(Prim::Helm(j as i64), false)]) };
+    let mut text = String::with_capacity(n * 64);
+    text.push_str(&format!("# Register {prefix}: {n} items{nl}{nl}"));
+    let mut ranges: Vec<(usize, usize)> = Vec::with_capacity(n + 1);
+    ranges.push((0, 0));
+    for j in 1..=n {
+        match c.spacing % 3 {
+            0 => {}
+            1 => text.push_str(nl),
+            _ => text.push_str(&format!("{nl}## Item {j}{nl}{nl}Adds {j}, see geodesy:i{}.{nl}{nl}", j + 1)),
+        }
+        let at = text.len();
+        text.push_str(&format!("```geodesy:i{j}{nl}{}", body_of(j).0));
+        if j < n {
+            text.push_str(&format!("{nl}```{nl}"));
+        } else {
+            match c.ending % 4 {
+                0 => text.push_str(&format!("{nl}```{nl}")),
+                1 => text.push_str(&format!("{nl}```")),
+                2 => text.push_str(nl),
+                _ => {}
+            }
+        }
+        ranges.push((at, text.len()));
+    }
+    // which items: all of a small register; else the decimal and binary neighbourhoods (names that are
+    // prefixes / extensions of each other), both ends, and a deterministic scatter
+    let mut pick: BTreeSet<usize> = BTreeSet::new();
+    if n <= 2000 {
+        pick.extend(1..=n);
+    } else {
+        let budget = if n <= 20_000 { 320 } else if n <= 100_000 { 72 } else { 28 };
+        let mut p = 1usize;
+        while p <= n {
+            pick.extend([p.saturating_sub(1).max(1), p, (p + 1).min(n)]);
+            p *= 10;
+        }
+        pick.extend([1, 2, n / 3, n / 2, n - 1, n]);
+        let mut p = 1usize;
+        while p <= n && pick.len() < budget / 2 {
+            pick.extend([p.saturating_sub(1).max(1), p, (p + 1).min(n)]);
+            p *= 2;
+        }
+        let mut s = 0u64;
+        while pick.len() < budget {
+            s += 1;
+            pick.insert(1 + (mix64(s ^ (n as u64) << 20) % n as u64) as usize);
+        }
+    }
+    let items: Vec<ItemModel> = pick
+        .iter()
+        .map(|&j| {
+            let (body, steps) = body_of(j);
+            ItemModel { suffix: format!("i{j}"), role: if j == n { "last-of-many-items" } else if j == 1 { "first-of-many-items" } else { "one-of-many-items" }, steps, body, range: ranges[j] }
+        })
+        .collect();
+    let absent = vec!["i0".to_string(), format!("i{}", n + 1), "i".to_string(), "i01".to_string(), format!("i{}x", n / 2), format!("{}", n / 2)];
+    let what = format!(
+        "register {prefix}.md of {} bytes with {n} items i1..i{n} ({}, {}, last item {})",
+        text.len(), if c.crlf { "CR/LF" } else { "LF" }, ["back to back", "separated by a blank line", "separated by a heading and prose"][c.spacing as usize % 3],
+        ["terminated + newline", "terminated, fence is end of file", "unterminated + newline", "unterminated, no newline"][c.ending as usize % 4]
+    );
+    rec.class(&format!("many-items:n={n}/{}", if c.crlf { "CR/LF" } else { "LF" }));
+    rec.class(&format!("many-items:spacing={}", c.spacing % 3));
+    rec.count("items_in_registers", n as u64);
+    let b = BuiltFile { file_name: format!("{prefix}.md"), text, items, absent, what };
+    check_built_file(&b, &prefix, c.xdg, "register-with-many-items", None, rec)?;
+    rec.nontrivial(&(c.n, c.crlf, c.spacing % 3, c.ending % 4, c.xdg));
+    Ok(())
+}
+
+fn many_cases(thorough: bool) -> Vec<ManyCase> {
+    let ns: &[u32] = if thorough { &[300, 1_000, 2_000, 10_000, 30_000, 100_000, 300_000, 1_000_000] } else { &[300, 2_000, 10_000, 100_000] };
+    let mut out = vec![];
+    let mut rot = 0u8;
+    for &n in ns {
+        for crlf in [false, true] {
+            for spacing in 0..3u8 {
+                rot = rot.wrapping_add(1);
+                out.push(ManyCase { n, crlf, spacing, ending: rot % 4, xdg: rot % 2 == 0 });
+            }
+        }
+    }
+    out
+}
+
+// =====================================================================================
 // 8. main
 // =====================================================================================
 
@@ -3726,6 +4505,7 @@ fn main() {
     run.assume("thread schedules are sampled by the OS, not enumerated");
     run.assume("a user constructor's refusal is handed back unchanged (same Error variant and payload, compared by Debug text) at top level, from a pipeline step and from a macro body: the library propagates construction errors with `?` and documents no wrapping");
     run.assume("registers and stand-alone resource files are read at every look-up (no documented caching; confirmed on the unchanged tree): a rewritten file is seen by the next look-up of every context, a removed one is gone; the search path elements ./geodesy and <data_local_dir>/geodesy need not exist when the context is created");
+    run.assume("the documentation (Rumination 009, doc comments of Plain) states no limit on the size of a register or resource file, the number of items, the length of a line, the size of an item or the amount of prose, other fenced blocks and comments around and inside it: an item is found and is exactly the written body wherever it lies in a file of up to 6 MiB (quick) / 128 MiB (thorough); the filler never contains the tag line of the wanted item, three backticks inside a body, or the characters | < > and the word 'proj' inside a comment (tokenizer matters of C03/C16)");
     run.assume("per-tuple references: a tuple applied together with others (any order) must come out as when applied alone; all generated definitions are free of stack operators, so this is implied by the property (behaviour independent of anything applied before)");
 
     let items = file_item_cases();
@@ -3798,6 +4578,37 @@ fn main() {
         arb_late_batch,
         run_late_batch,
     );
+
+    // the SIZE of the file and the POSITION of the item in it (a tree of their own, in memory if possible)
+    enter_big_tree();
+    let sizes = size_cases(run.is_thorough());
+    let n_sizes = sizes.len();
+    run.enumerate(
+        "file-size-and-item-position",
+        "files padded with filler so that a chosen byte of the wanted item is byte number `mark` of the file, mark = 2^k - 1, 2^k, 2^k + 1 for k = 9..=22 (thorough ..=26, 64 MiB) x {register with the filler BETWEEN its items; register item with a very large body; stand-alone .resource file - filler INSIDE the definition} x {./geodesy, $XDG_DATA_HOME/geodesy} x alignment (register: item wholly before the mark, ends at it, mark at the line end of / inside the closing fence, at the line end of the body, at the last digit of the last number, at the last step separator, inside the first number, at the first byte of the body, at the line end of / inside the name of the tag, inside the opening fence, item starts at the mark, wholly after it; definition: step 2 wholly before / ends at / last digit / inside the operator name / after the separator / starts at / wholly after the mark, step 3 starts at the mark) x filler (register: prose, other fenced geodesy items, one very long line, blank lines, code blocks + multi-byte prose mentioning the name, items with long comment lines; definition: comment lines, one very long comment line, blank lines, one long line of blanks and tabs, multi-byte comments, one very long inline comment) x {LF, CR/LF} x what follows (end of file, item unterminated at end of file, filler of mark/2 bytes and a last item whose fence ends the file, an unterminated last item); everything crossed for k <= 12 (thorough 14), filler crossed and the rest rotating for k <= 18 (20), all rotating above (few large files, at most 3 at a time). Oracle: the wanted item, the first item, the last item, the filler item in front of the wanted one and items whose names extend the wanted name are all found and behave (bitwise, both directions) as the body WRITTEN into the file, with the steps() and params() of that literal body registered at run time on a Minimal context; names not in the file are errors; a run-time registration under the wanted name takes precedence afterwards",
+        n_sizes,
+        move |i| sizes[i].clone(),
+        check_size_case,
+    );
+    let n = run.scale(400, 6_000);
+    let jmax = if run.is_thorough() { 23 } else { 21 };
+    run.section(
+        "file-size-and-item-position-random",
+        "the same generator with random marks: m * 2^j / 8 + d (m = 8..15, d = -2..=2: odd multiples of smaller powers of two, block boundaries) or any offset in [2^j, 2^(j+1)), j = 9..=21 (thorough 23), all other dimensions random; non-trivial = the file extends beyond the mark",
+        n,
+        move || arb_size_case(jmax),
+        check_size_case,
+    );
+    let manies = many_cases(run.is_thorough());
+    let n_many = manies.len();
+    run.enumerate(
+        "registers-with-very-many-items",
+        "registers of 300, 2 000, 10 000, 100 000 (thorough also 1 000, 30 000, 300 000, 1 000 000) items i1..iN x {LF, CR/LF} x {items back to back, blank line between, heading + prose naming the next item between} with the ending of the last item and the search location rotating; every fifth item a two-step pipeline; looked up: EVERY item for N <= 2 000, else the decimal and binary neighbourhoods 10^m - 1, 10^m, 10^m + 1, 2^m - 1, 2^m, 2^m + 1 (names that are prefixes / extensions of each other), both ends and a deterministic scatter (320 names for N <= 20 000, 72 for N <= 100 000, else 28); absent: i0, i<N+1>, i, i01, i<N/2>x, <N/2>; oracle as in file-size-and-item-position",
+        n_many,
+        move |i| manies[i].clone(),
+        check_many,
+    );
+    leave_big_tree();
 
     let general = Profile { grid_w: 2, w: [4, 12, 14, 10, 24, 8, 5, 4, 3, 2, 3, 14, 2], max_len: if run.is_thorough() { 100 } else { 40 } };
     let n = run.scale(5_000, 45_000);
